@@ -1,28 +1,69 @@
 ---------------------------- MODULE Unsupported ----------------------------
 (***************************************************************************)
 (* C11: Outcome(program) = IF HasUnsupported(program) THEN "refused" ELSE   *)
-(* "graph".  The product  statement kind x structural position  is a TLA+   *)
-(* set built from two constants the harness reads from the running          *)
-(* interpreter (every ast.stmt subclass outside the supported set; the     *)
-(* position templates); TLC checks every recorded outcome and that the     *)
-(* recorded cases are exactly that product (plus the control programs and   *)
-(* the non-function inputs).                                                *)
+(* "graph".                                                                  *)
+(*                                                                           *)
+(* The domain is a TLA+ set: a PROGRAM is identified by                      *)
+(*   - the kind of its one unsupported statement (every ast.stmt subclass   *)
+(*     of the running interpreter outside the supported set: the only       *)
+(*     constant the harness supplies),                                       *)
+(*   - the POSITION of that statement: a path of steps, outermost first.    *)
+(*     Step 1 is the function's own suite, every further step enters one    *)
+(*     suite of a compound statement (ctx).  A step also says what stands   *)
+(*     BEFORE the item in its suite - nothing, a simple statement, an `if`, *)
+(*     a loop, each optionally preceded by a terminator (return / break /   *)
+(*     continue, i.e. the item is dead code) - and what stands AFTER it,    *)
+(*   - the FORM in which the program is handed to the library (source text, *)
+(*     list of AST nodes, function object).                                  *)
+(* Positions(D) is every valid path with at most D compound contexts.  The   *)
+(* harness builds the programs, calls AST2SCFG and records the outcome;     *)
+(* TLC checks every outcome and CERTIFIES that the recorded cases are        *)
+(* exactly Kinds \X Positions(D) \X Forms (plus named extra templates,       *)
+(* control programs and non-function inputs).                                *)
 (***************************************************************************)
 EXTENDS Naturals, Sequences, FiniteSets, TLC, Json, IOUtils
 
-Data  == JsonDeserialize(IOEnv.CASES)     \* [kinds, positions, cases]
-Cases == Data.cases                       \* [kind, pos, unsupported, outcome, exc]
+Data  == JsonDeserialize(IOEnv.CASES)     \* [kinds, depth, calldepth, cases]
+Cases == Data.cases                       \* grid case: [kind, path, out : form -> outcome];  extra case: [kind, pos, form, unsupported, outcome]
+Depth == Data.depth                       \* compound contexts around the statement, source-text and AST-list forms
+CallDepth == Data.calldepth               \* the same for the function-object form
 
 VARIABLES tid, bad
 SeqSet(q) == {q[j] : j \in 1..Len(q)}
 
-Expected(c) == IF c.unsupported THEN "refused" ELSE "graph"
-Verdict(c) == IF c.outcome = Expected(c) THEN {}
-              ELSE IF c.unsupported THEN {IF c.outcome = "graph" THEN "Mistranslated" ELSE "NotRefusedExplicitly"}
-              ELSE {"SupportedProgramRejected"}
-Product == SeqSet(Data.kinds) \X SeqSet(Data.positions)
-Covered == {<<Cases[i].kind, Cases[i].pos>> : i \in {j \in 1..Len(Cases) : Cases[j].unsupported /\ Cases[j].pos # "input"}}
-Certify == IF Covered = Product THEN {} ELSE {"MACHINERY-product-not-covered"}
+Ctx    == {"if", "else", "elif", "while", "whileelse", "for", "forelse"}
+LoopBodies == {"while", "for"}
+Terms  == {"-", "ret", "brk", "cnt"}
+Before == {"none", "simple", "if", "loop"}
+After  == {"none", "simple"}
+StepsOf(C) == [ctx : C, t : Terms, p : Before, post : After]
+FnSteps  == StepsOf({"fn"})
+CtxSteps == StepsOf(Ctx)
+\* break / continue need an enclosing loop BODY (a loop's else clause belongs to the next loop out)
+InLoop(path, j) == \E i \in 2..j : path[i].ctx \in LoopBodies
+Valid(path) == \A j \in 1..Len(path) : path[j].t \in {"brk", "cnt"} => InLoop(path, j)
+RECURSIVE Paths(_)
+Paths(d) == IF d = 0 THEN {<<s>> : s \in FnSteps}
+            ELSE {Append(p, s) : p \in {q \in Paths(d - 1) : Len(q) = d}, s \in CtxSteps} \cup Paths(d - 1)
+Positions(d) == {p \in Paths(d) : Valid(p)}
+\* the name under which a position is recorded: "fn:-:none:none/while:brk:if:simple"
+StepStr(s) == s.ctx \o ":" \o s.t \o ":" \o s.p \o ":" \o s.post
+RECURSIVE PathStrF(_, _)
+PathStrF(p, j) == IF j = Len(p) THEN StepStr(p[j]) ELSE StepStr(p[j]) \o "/" \o PathStrF(p, j + 1)
+PosNames(d) == {PathStrF(p, 1) : p \in Positions(d)}
+
+IsGrid(c) == "path" \in DOMAIN c
+\* "n/a": the harness could not hand the program over in this form (a function object needs source that compiles)
+Wrong(form, outcome) == ~(outcome = "refused" \/ (outcome = "n/a" /\ form = "callable"))
+Clause(outcome) == IF outcome = "graph" THEN "Mistranslated" ELSE "NotRefusedExplicitly"
+Verdict(c) ==
+  IF IsGrid(c) THEN {Clause(c.out[f]) \o "@" \o f : f \in {x \in DOMAIN c.out : Wrong(x, c.out[x])}}
+  ELSE IF c.unsupported /\ Wrong(c.form, c.outcome) THEN {Clause(c.outcome) \o "@" \o c.form}
+  ELSE {}       \* refusing a supported program is not C11's business (C07 allows an explicit refusal)
+Product == (SeqSet(Data.kinds) \X PosNames(Depth) \X {"str", "ast"})
+           \cup (SeqSet(Data.kinds) \X PosNames(CallDepth) \X {"callable"})
+Covered == UNION {{<<Cases[i].kind, Cases[i].path, f>> : f \in DOMAIN Cases[i].out} : i \in {j \in 1..Len(Cases) : IsGrid(Cases[j])}}
+Certify == IF Data.kinds = <<>> \/ Covered = Product THEN {} ELSE {"MACHINERY-product-not-covered"}
 
 Init == /\ tid \in 0..Len(Cases)
         /\ bad = IF tid = 0 THEN Certify ELSE Verdict(Cases[tid])
